@@ -712,6 +712,40 @@ def desugar_chunks_map_collect(text, log, where):
         log.append(("R17g", where, "%s(%s).map(..).collect() over %s desugared into a loop" % (toks[i].text, n, recv)))
 
 
+def desugar_for_each(text, log, where):
+    """R17h: `RECV.iter().for_each(|PAT| BODY)` -> `for PAT in RECV.iter() { BODY; }` (the std definition of Iterator::for_each;
+    a trailing `;` of the statement is kept)."""
+    while True:
+        toks = lex(text)
+        hit = None
+        for i in range(1, len(toks) - 8):
+            if toks[i].text == "iter" and toks[i - 1].text == "." and toks[i + 1].text == "(" and toks[i + 2].text == ")" \
+                    and toks[i + 3].text == "." and toks[i + 4].text == "for_each" and toks[i + 5].text == "(" and toks[i + 6].text == "|":
+                mclose = match_close(toks, i + 5)
+                pe = i + 7
+                while toks[pe].text != "|":
+                    pe += 1
+                r = i - 1
+                while r - 1 >= 0 and (toks[r - 1].kind in ("id", "num") or toks[r - 1].text == "."):
+                    r -= 1
+                if toks[r].text == ".":
+                    r += 1
+                hit = (r, i, pe, mclose)
+                break
+        if hit is None:
+            return text
+        r, i, pe, mclose = hit
+        recv = re.sub(r"\s+", "", text[toks[r].start:toks[i - 1].start])
+        pat = text[toks[i + 6].end:toks[pe].start].strip()
+        body = text[toks[pe].end:toks[mclose].start].strip()
+        repl = "for %s in %s.iter() {\n%s;\n}" % (pat, recv, body)
+        end = toks[mclose].end
+        if mclose + 1 < len(toks) and toks[mclose + 1].text == ";":
+            end = toks[mclose + 1].end
+        text = text[:toks[r].start] + repl + text[end:]
+        log.append(("R17h", where, "iter().for_each(..) over %s desugared into a loop" % recv))
+
+
 def desugar_let_chains(text, log, where):
     """R3: `if let P1 = E1 && let P2 = E2 && C { B }` without else -> nested if-let / if (equivalent)."""
     while True:
@@ -1294,6 +1328,7 @@ def process_fn(u, fnpath, text, log, origin, canary=None):
     if settings.get("mapcollect") == "loop":
         text = desugar_map_collect(text, log, fnpath)
         text = desugar_chunks_map_collect(text, log, fnpath)
+        text = desugar_for_each(text, log, fnpath)
         text = desugar_range_map_filter_collect(text, log, fnpath)
         text = desugar_map_fold(text, log, fnpath)
         text = desugar_any_find_map(text, log, fnpath)
